@@ -164,6 +164,8 @@ class Adapter:
         self.counts[kind] += 1
         entry = [methodname, params.get('MaxObjectCount'), None]
         self.log.append(entry)
+        if len(self.log) > 300:
+            raise RuntimeError('C15 harness: more than 300 requests in one call (runaway pull loop)')
         if self.fault and self.fault[0] == kind and self.fault[1] == self.counts[kind]:
             self.fired = True
             entry[2] = 'fault'
@@ -198,7 +200,7 @@ def new_client(server, S):
 
 
 def setting(S):
-    return None if S == 'omit' else S        # documented default of WBEMConnection
+    return False if S == 'omit' else S        # documented default of WBEMConnection and of the mock
 
 
 # ---------------------------------------------------------------------------------------------------------
@@ -537,6 +539,14 @@ def check_call(case, client, server, S, enabled, op, V_, ns, n, moc, pattern, le
         elif trad[0] == 'ok':
             teach = True
 
+    if not started:
+        # a generator that was never advanced has not done anything yet
+        want = outcome_of(THROWABLE[pattern[2]]()) if pattern[0] == 'throw' else ('done',)
+        if out != want or items or ad.log or server.table:
+            case.fail('unstarted-generator-acted', outcome=repr(out), requests=ad.names())
+            server.table.clear()
+        return teach
+
     # ---- nothing stays open on the server
     left = len(server.table)
     if left:
@@ -611,10 +621,15 @@ def check_call(case, client, server, S, enabled, op, V_, ns, n, moc, pattern, le
     if op == QI and pulled and got and all(g[1] is None for g in got) and any(e[1] is not None for e in exp):
         # narrowly: instances without path from the pull route, with a path (class, namespace) from ExecQuery
         case.fail('known:query-instance-path-only-on-traditional-route',
-                  pull_route_path=None, traditional_route_path=str(fresh[1][0].path))
+                  pull_route_path=None, traditional_route_path=repr(fresh[1][0].path)[:160])
+    if op == QI:
+        # query instances are compared by content; a path, where there is one, is checked for the namespace below
         exp = [(e[0], None, None) for e in exp]
-    ce = Counter((e[0], e[1]) for e in exp)
-    cg = Counter((g[0], g[1]) for g in got)
+        ce = Counter((e[0], None) for e in exp)
+        cg = Counter((g[0], None) for g in got)
+    else:
+        ce = Counter((e[0], e[1]) for e in exp)
+        cg = Counter((g[0], g[1]) for g in got)
     if p == 'close' or p == 'drop':
         if len(items) != min(pattern[1], len(exp)) and fresh[0] == 'ok':
             case.fail('wrong-number-of-objects-before-early-stop', yielded=len(items))
@@ -655,9 +670,9 @@ def check_call(case, client, server, S, enabled, op, V_, ns, n, moc, pattern, le
             elif h != client.host.lower():
                 case.fail('yielded-path-names-wrong-host', host=g[2], expected=client.host)
                 return teach
-        elif h not in hosts[(g[0], g[1])] and h != client.host.lower():
+        elif h not in hosts[(g[0], None if op == QI else g[1])] and h != client.host.lower():
             case.fail('yielded-path-host-differs-from-traditional-result', host=repr(g[2]),
-                      traditional=repr(sorted(hosts[(g[0], g[1])], key=str)))
+                      traditional=repr(sorted(hosts[(g[0], None if op == QI else g[1])], key=str)))
             return teach
     if lacking:
         if pulled and lacking == len(items):
@@ -749,14 +764,15 @@ def scenario_variants():
                     pull = S is True or (S is None and enabled)
                     if V_.pull_route_only and not pull:
                         continue
-                    for ns in (DFLT, OTHER):
-                        if V_.nsform == 'omit' and ns != DFLT:
-                            continue
-                        for n in sorted({0, 2, N}):
-                            for moc in sorted({1, max(n, 1), n + 1}):
-                                one('variants', S, enabled, op, V_, ns, n, moc, ('exhaust',))
-                                if n:
-                                    one('variants', S, enabled, op, V_, ns, n, moc, ('close', 1))
+                    if THOROUGH:
+                        sizes = [(ns, n) for ns in (DFLT, OTHER) for n in sorted({0, 2, N})]
+                    else:
+                        sizes = [(DFLT, 0), (DFLT, N), (OTHER, 2)]
+                    for ns, n in sizes:
+                        for moc in (sorted({1, max(n, 1), n + 1}) if THOROUGH else sorted({1, n + 1})):
+                            one('variants', S, enabled, op, V_, ns, n, moc, ('exhaust',))
+                            if n and (THOROUGH or moc == 1):
+                                one('variants', S, enabled, op, V_, ns, n, moc, ('close', 1))
 
 
 def scenario_invalid_args():
@@ -801,7 +817,7 @@ def run_sequence(scenario, S, steps, n=2, moc=1, ns=DFLT, client=None, srv=None,
                  first_untouched=False):
     """steps: (op, enabled, variant-name, pattern).  One connection; each call is held against the outcome on a
     fresh connection; the model only remembers what each call could have taught the connection."""
-    R.case((scenario, repr(S), n, moc, steps))
+    R.case((scenario, client_kind, repr(S), ns, n, moc, steps))
     srv = srv or server_for(ns, n)
     client = client or new_client(srv, S)
     learned = {}
@@ -819,28 +835,37 @@ def run_sequence(scenario, S, steps, n=2, moc=1, ns=DFLT, client=None, srv=None,
 def scenario_sequences(rnd):
     pats = (('exhaust',), ('close', 1))
     alpha1 = [(op, en, v, p) for op in OPS for en in (True, False) for v in ('plain', 'pull-only') for p in pats]
-    # all 2-call sequences, undetermined connection
+    # all 2-call sequences, undetermined connection (stopping early only where both calls use the same operation,
+    # unless thorough)
     for a in alpha1:
         for b in alpha1:
-            if a[3] != ('exhaust',) and b[3] != ('exhaust',) and a[0] != b[0]:
+            if a[0] != b[0] and (a[3] != ('exhaust',) or b[3] != ('exhaust',)) and not THOROUGH:
                 continue
             run_sequence('sequence-2', None, (a, b))
-    # settings True/False: nothing is ever learned; same op and one other op
+    # settings True/False: nothing is ever learned
     for S in (True, False):
         for a in alpha1:
             for b in alpha1:
-                if b[0] in (a[0], EIP if a[0] != EIP else EI) and b[3] == ('exhaust',):
+                if b[3] == ('exhaust',) and (b[0] == a[0] or (THOROUGH and b[0] == (EIP if a[0] != EIP else EI))):
                     run_sequence('sequence-2', S, (a, b))
     # 3 calls on the same operation: every capability/argument history
     alpha_op = [(en, v, p) for en in (True, False) for v in ('plain', 'pull-only') for p in pats]
     for op in OPS:
         for seq in itertools.product(alpha_op, repeat=3):
-            if sum(1 for s in seq if s[2] != ('exhaust',)) > 1:
+            early = [i for i, x in enumerate(seq) if x[2] != ('exhaust',)]
+            if len(early) > 1 or (early and early[0] != 1 and not THOROUGH):
                 continue
-            run_sequence('sequence-3-same-op', None, tuple((op,) + s for s in seq), n=3, moc=2)
+            run_sequence('sequence-3-same-op', None, tuple((op,) + x for x in seq), n=3, moc=2)
+    if THOROUGH:
+        # 3 calls over every pair of operations (independent learning per operation)
+        alpha2 = [(en, v) for en in (True, False) for v in ('plain', 'pull-only')]
+        for o1, o2 in itertools.combinations(OPS, 2):
+            for seq in itertools.product([(o, en, v, ('exhaust',)) for o in (o1, o2) for en, v in alpha2], repeat=3):
+                if len({x[0] for x in seq}) == 2:
+                    run_sequence('sequence-3-two-ops', None, seq, n=2, moc=1)
     # sampled longer mixed sequences
-    for _ in range(1500 if THOROUGH else 300):
-        L = rnd.randint(3, 5)
+    for _ in range(5000 if THOROUGH else 300):
+        L = rnd.randint(3, 6 if THOROUGH else 5)
         seq = tuple(rnd.choice(alpha1) for _ in range(L))
         run_sequence('sequence-sampled', rnd.choice((None, None, None, True, False)), seq,
                      n=rnd.randint(0, N), moc=rnd.randint(1, N + 1), ns=rnd.choice((DFLT, OTHER)))
@@ -896,7 +921,7 @@ def scenario_interleaved():
 
 def scenario_faked_client():
     """FakedWBEMConnection as the client: constructor parameters and the disable_pull_operations property."""
-    for n in (0, 3):
+    for n in ((0, 3) if THOROUGH else (3,)):
         for S in ('omit', None, True, False):
             for dis0 in ('omit', None, False, True):
                 kw = {}
@@ -906,7 +931,8 @@ def scenario_faked_client():
                     kw['disable_pull_operations'] = dis0
                 S_eff = False if S == 'omit' else S      # documented default of the mock
                 en0 = dis0 is not True
-                for toggles in ((en0,), (en0, not en0), (en0, not en0, en0), (en0, en0, not en0)):
+                for toggles in ((en0, not en0), (en0, not en0, en0), (en0, en0, not en0)) + \
+                        (((en0,),) if THOROUGH else ()):
                     for op in OPS:
                         mock = pywbem_mock.FakedWBEMConnection(default_namespace=DFLT, **kw)
                         srv = Server({DFLT: n, OTHER: 1}, mock=mock)
@@ -972,8 +998,8 @@ def main():
     scenario_grid()
     scenario_variants()
     scenario_invalid_args()
-    scenario_faults()
     scenario_sequences(rnd)
+    scenario_faults()
     scenario_interleaved()
     scenario_faked_client()
     scenario_mock_execquery()
